@@ -4,7 +4,7 @@ from __future__ import annotations
 import itertools
 
 from pyvc.bounded import Part, guarded
-from pyvc.contracts import contract, for_property, klass, loop, predicate, value_type
+from pyvc.contracts import contract, exception, for_property, klass, loop, predicate, ufun, value_type
 
 for_property("C21")
 AG = "pynguin.assertion.assertiongenerator"
@@ -57,6 +57,63 @@ loop(F, 3, invariant=INV_COMMON + [
     "forall(lambda m: implies(m in universe, killed_by_some(kill_map, keep, m)), 'int')"])
 loop(F, 4, invariant=[
     "forall(lambda m: (m in others) == any(m in kill_map[o] and o != key for o in _done), 'int')"])
+
+
+# -- the verification observer: every assertion of a statement is evaluated, none is skipped ----------------------------
+# `exec(compile(code))` is outside the verifier's reach; it enters as an assumed contract over an uninterpreted verdict
+# function of (source text, namespace): 0 holds, 1 AssertionError, 2 another exception, 3 the tracer's abort signal.
+ATO_ = "pynguin.assertion.assertiontraceobserver"
+AT = "pynguin.assertion.assertion_trace"
+value_type("NS")        # the execution namespace (exec'ing an `assert` statement does not rebind names: assumed)
+exception("TracingAbortedException", "BaseException")
+klass("pynguin.assertion.assertion:Assertion", fields={})
+klass("libcst:SimpleStatementLine", fields={})
+klass("libcst:Module", fields={"code": "str"})
+klass("builtins:BaseException", fields={})
+klass("pynguin.testcase.testcase:Statement", fields={"assertions": "list[Assertion]"})
+klass(f"{AT}:AssertionVerificationTrace", fields={"failed": "defaultdict[int, set[int]]", "error": "defaultdict[int, set[int]]"})
+klass(f"{ATO_}:RemoteAssertionExecutorLocalState", fields={"trace": "AssertionVerificationTrace", "position": "int"})
+klass(f"{ATO_}:RemoteAssertionVerificationObserver", fields={"_state": "RemoteAssertionExecutorLocalState"})
+ufun("ONLYEXC", ["Statement"], "bool")
+ufun("UNRENDERED", ["Assertion"], "bool")
+ufun("CODE", ["Assertion"], "str")
+ufun("NODECODE", ["SimpleStatementLine"], "str")
+ufun("VERDICT", ["str", "NS"], "int")
+contract("pynguin.testcase.testcase:Statement.has_only_exception_assertion", mode="assume", sig={"self": "Statement"}, returns="bool",
+         ensures=["result == ONLYEXC(self)"])
+contract("pynguin.assertion.assertion_to_ast:assertion_to_cst", mode="assume", sig={"assertion": "Assertion"}, returns="Optional[SimpleStatementLine]", fresh_result=False,
+         ensures=["(result is None) == UNRENDERED(assertion)", "implies(result is not None, NODECODE(result) == CODE(assertion))"])
+contract("libcst:Module.__init__", mode="assume", sig={"self": "Module", "body": "list[SimpleStatementLine]"},
+         requires=["len(body) == 1"], modifies=["self.code"], ensures=["self.code == NODECODE(body[0])"])
+contract("builtins:compile", mode="assume", sig={"source": "str", "filename": "str", "mode": "str"}, returns="str",
+         ensures=["result == source"], note="a code object is modelled by its source text")
+contract("builtins:exec", mode="assume", sig={"code": "str", "globals": "NS"}, returns="None",
+         raises={"TracingAbortedException": "VERDICT(code, globals) == 3", "AssertionError": "VERDICT(code, globals) == 1",
+                 "BaseException": "VERDICT(code, globals) == 2"},
+         ensures=["VERDICT(code, globals) == 0"])
+OBS = f"{ATO_}:RemoteAssertionVerificationObserver.after_statement_execution"
+RECORDED = ("implies(not UNRENDERED(statement.assertions[{j}]), "
+            "(implies(VERDICT(CODE(statement.assertions[{j}]), namespace) == 1, "
+            "         {pos} in keys(self._state.trace.failed) and {j} in self._state.trace.failed[{pos}]) and "
+            " implies(VERDICT(CODE(statement.assertions[{j}]), namespace) == 2, "
+            "         {pos} in keys(self._state.trace.error) and {j} in self._state.trace.error[{pos}])))")
+contract(OBS, sig={"self": "RemoteAssertionVerificationObserver", "statement": "Statement", "executor": "object",
+                   "namespace": "NS", "exception": "Optional[BaseException]"},
+         modifies=["self._state.position", "self._state.trace.failed", "self._state.trace.error"],
+         raises={"TracingAbortedException": "any(not UNRENDERED(a) and VERDICT(CODE(a), namespace) == 3 for a in statement.assertions)"},
+         ensures=["self._state.position == old(self._state.position) + 1",
+                  # C21, first clause, on the observer: no assertion that fails or raises in this execution goes unrecorded
+                  "implies(not ONLYEXC(statement), all(" + RECORDED.format(j="j", pos="old(self._state.position)") +
+                  " for j in range(len(statement.assertions))))",
+                  # what was recorded before stays recorded (for every position)
+                  "all(old(self._state.trace.failed)[p] <= self._state.trace.failed[p] for p in keys(old(self._state.trace.failed)))",
+                  "all(old(self._state.trace.error)[p] <= self._state.trace.error[p] for p in keys(old(self._state.trace.error)))"])
+loop(OBS, 0, modifies=["self._state.trace.failed", "self._state.trace.error"], invariant=[
+    "all(" + RECORDED.format(j="j", pos="position") + " for j in range(_i))",
+    "all(old(self._state.trace.failed)[p] <= self._state.trace.failed[p] for p in keys(old(self._state.trace.failed)))",
+    "all(old(self._state.trace.error)[p] <= self._state.trace.error[p] for p in keys(old(self._state.trace.error)))",
+    "keys(old(self._state.trace.failed)) <= keys(self._state.trace.failed)",
+    "keys(old(self._state.trace.error)) <= keys(self._state.trace.error)"])
 
 
 # ---------------------------------------------------------------------------------------------------------------
